@@ -15,7 +15,7 @@ use std::time::Duration as StdDuration;
 #[derive(Clone, Debug, PartialEq)]
 enum Point { Never, Stage(usize), Msg(usize), End }
 #[derive(Clone, Debug)]
-struct Scn { stages: usize, point: Point, catches: bool, to_f_ms: Vec<u64>, to_h_ms: Vec<u64> }
+struct Scn { stages: usize, point: Point, catches: bool, to_f_ms: Vec<u64>, to_h_ms: Vec<u64>, f_shuts_down_at_first_msg: bool, g_panics_at_end: bool }
 
 static SCN: Mutex<Option<Scn>> = Mutex::new(None);
 static LOG: Mutex<Vec<(String, String, u64)>> = Mutex::new(Vec::new());
@@ -41,9 +41,15 @@ impl Module for F {
     fn handle_message(&mut self, msg: Message) {
         let sc = SCN.lock().unwrap().clone().unwrap();
         let n = { let mut s = SEEN.lock().unwrap(); *s += 1; *s };
-        if sc.point == Point::Msg(n) { log("f", format!("panics-at-msg({})", msg.header().id)); panic!("fault injected by panic_driver"); }
+        if sc.point == Point::Msg(n) {
+            log("f", format!("panics-at-msg({})", msg.header().id));
+            // what the module sent in this event BEFORE it panicked still goes out
+            send(Message::default().id(msg.header().id + 2000), "to_g");
+            panic!("fault injected by panic_driver");
+        }
         log("f", format!("msg({})", msg.header().id));
         send(Message::default().id(msg.header().id + 1000), "to_g");
+        if n == 1 && sc.f_shuts_down_at_first_msg { current().shutdown(); }
     }
     fn at_sim_end(&mut self) -> Result<(), RuntimeError> {
         let sc = SCN.lock().unwrap().clone().unwrap();
@@ -60,7 +66,11 @@ impl Module for G {
         for (i, t) in sc.to_h_ms.iter().enumerate() { send_in(Message::default().id(300 + i as u16), "to_h", ms(*t)); }
     }
     fn handle_message(&mut self, msg: Message) { log("g", format!("msg({})", msg.header().id)); }
-    fn at_sim_end(&mut self) -> Result<(), RuntimeError> { log("g", "end".into()); Ok(()) }
+    fn at_sim_end(&mut self) -> Result<(), RuntimeError> {
+        log("g", "end".into());
+        if SCN.lock().unwrap().as_ref().unwrap().g_panics_at_end { panic!("second fault injected by panic_driver"); }
+        Ok(())
+    }
 }
 struct H;
 impl Module for H {
@@ -75,6 +85,7 @@ fn expected(sc: &Scn) -> (Vec<(String, String, u64)>, bool) {
     let mut alive = true;
     let mut panicked = false;
     let mut death_us: Option<u64> = None;
+    let mut shut = false;
     for st in 0..sc.stages {
         if alive {
             out.push(("f".into(), format!("start({})", st), 0));
@@ -85,14 +96,18 @@ fn expected(sc: &Scn) -> (Vec<(String, String, u64)>, bool) {
     for (i, t) in sc.to_f_ms.iter().enumerate() {
         if !alive { continue; }
         seen += 1;
-        if sc.point == Point::Msg(seen) { out.push(("f".into(), format!("panics-at-msg({})", 100 + i), t * 1000)); alive = false; panicked = true; death_us = Some(t * 1000); }
-        else { out.push(("f".into(), format!("msg({})", 100 + i), t * 1000)); out.push(("g".into(), format!("msg({})", 1100 + i), t * 1000)); }
+        if sc.point == Point::Msg(seen) { out.push(("f".into(), format!("panics-at-msg({})", 100 + i), t * 1000)); out.push(("g".into(), format!("msg({})", 2100 + i), t * 1000)); alive = false; panicked = true; death_us = Some(t * 1000); }
+        else {
+            out.push(("f".into(), format!("msg({})", 100 + i), t * 1000)); out.push(("g".into(), format!("msg({})", 1100 + i), t * 1000));
+            if seen == 1 && sc.f_shuts_down_at_first_msg { alive = false; shut = true; death_us = Some(t * 1000); }
+        }
     }
     // f's own ticks fire only while it is alive (its task exists only if stage 0 ran, which it always does)
     for k in 0..8u64 { let t = (k + 1) * 20_000; if death_us.map(|d| t < d).unwrap_or(true) { out.push(("f".into(), format!("tick({})", k), t)); } }
     for (i, t) in sc.to_h_ms.iter().enumerate() { out.push(("h".into(), format!("msg({})", 300 + i), t * 1000)); }
     for k in 0..6u64 { out.push(("h".into(), format!("tick({})", k), (k + 1) * 20_000)); }
-    if alive && sc.point == Point::End { panicked = true; }
+    // the tear-down reaches every module that did not panic, also one that shut itself down: a panic there is reported as well
+    if (alive || shut) && sc.point == Point::End { panicked = true; }
     (out, panicked)
 }
 
@@ -115,6 +130,7 @@ fn one(sc: &Scn) -> Result<(), (&'static str, String, String)> {
     // instant. Ticks of the faulty module between its panic and the end of the run are not tolerated.
     let end_us = all.iter().map(|e| e.2).max().unwrap_or(0);
     let death: Option<u64> = want.iter().filter(|e| e.0 == "f" && e.1.starts_with("panics-at-msg")).map(|e| e.2).next().or(if matches!(sc.point, Point::Stage(_)) { Some(0) } else { None });
+    // a module that shut itself down has no task left: nothing to tolerate for it
     if let Some(d) = death { got.retain(|e| !(e.0 == "f" && e.1.starts_with("tick(") && e.2 == end_us && e.2 > d)); }
     // Tolerated as well (observation O8): the start-up loop still calls the later stages of a module that panicked in an earlier one
     // (start-up stages are neither messages nor wake-ups).
@@ -130,7 +146,8 @@ fn one(sc: &Scn) -> Result<(), (&'static str, String, String)> {
     // the healthy modules are torn down exactly once each
     for m in ["g", "h"] { if ends.iter().filter(|e| e.as_str() == m).count() != 1 { return Err(("tear-down-of-healthy-module", format!("at_sim_end of {} exactly once", m), format!("{:?}", ends))); } }
     let listed: Vec<String> = match &res { Ok(_) => vec![], Err(e) => e.iter().map(|x| x.to_string()).collect() };
-    let want_err: Vec<String> = if panicked && !sc.catches { vec!["module 'f' panicked".to_string()] } else { vec![] };
+    let mut want_err: Vec<String> = if panicked && !sc.catches { vec!["module 'f' panicked".to_string()] } else { vec![] };
+    if sc.g_panics_at_end { want_err.push("module 'g' panicked".to_string()); }
     if listed != want_err { return Err(("run-result", format!("errors {:?}", want_err), format!("errors {:?}", listed))); }
     Ok(())
 }
@@ -148,11 +165,12 @@ fn main() {
         let stages = 1 + (rnd() % 3) as usize;
         let to_f = times(&mut rnd, 3);
         let point = match rnd() % 5 { 0 => Point::Never, 1 => Point::Stage((rnd() % stages as u64) as usize), 2 | 3 => Point::Msg(1 + (rnd() % 4) as usize), _ => Point::End };
-        let sc = Scn { stages, point, catches: rnd() % 3 == 0, to_f_ms: to_f, to_h_ms: times(&mut rnd, 7) };
+        let shuts = rnd() % 5 == 0 && matches!(point, Point::End | Point::Never);
+        let sc = Scn { stages, point, catches: rnd() % 3 == 0, to_f_ms: to_f, to_h_ms: times(&mut rnd, 7), f_shuts_down_at_first_msg: shuts, g_panics_at_end: rnd() % 6 == 0 };
         last = format!("{:?}", sc);
         let r = one(&sc);
         // the simulator's global state stays usable for a subsequent simulation in the same process
-        let r = r.and_then(|_| one(&Scn { stages: 1, point: Point::Never, catches: false, to_f_ms: vec![13], to_h_ms: vec![7] }).map_err(|e| ("subsequent-simulation-disturbed", e.1, e.2)));
+        let r = r.and_then(|_| one(&Scn { stages: 1, point: Point::Never, catches: false, to_f_ms: vec![13], to_h_ms: vec![7], f_shuts_down_at_first_msg: false, g_panics_at_end: false }).map_err(|e| ("subsequent-simulation-disturbed", e.1, e.2)));
         if let Err((kind, exp, obs)) = r {
             println!("{{\"mismatch\":true,\"kind\":\"{}\",\"props\":\"C13\",\"scenario\":{{\"panic_scenario\":\"{}\"}},\"expected\":\"{}\",\"observed\":\"{}\"}}", kind, last.replace('"', "'"), exp.replace('"', "'"), obs.replace('"', "'"));
             std::process::exit(3);
